@@ -506,6 +506,10 @@ func TestCheck(t *testing.T) {
 		r1, _ := node.Do("POST", w.N.Public+"/oauth2/"+w.Verifier.Name+"/token", f.Encode(), hdr)
 		s2 := w.base("jwt_vc")
 		s2.nonce = s.nonce
+		if i%2 == 1 {
+			// the nonce is the presentation's: naming another client in the (unbound) client_id parameter changes nothing
+			s2.clientID = fmt.Sprintf("https://other-client-%d.example/oauth2/x", i)
+		}
 		f2, hdr2 := w.build(s2)
 		before := puts()
 		r2, _ := node.Do("POST", w.N.Public+"/oauth2/"+w.Verifier.Name+"/token", f2.Encode(), hdr2)
@@ -517,6 +521,20 @@ func TestCheck(t *testing.T) {
 		}
 		if r2.Status == 200 || puts() != before {
 			r.Violation("C02/issued-despite/reused-nonce", "access token issued for a presentation whose nonce was seen before", map[string]any{"first": r1.String(), "second": r2.String()})
+		}
+		// the byte-identical presentation once more, under yet another client_id
+		f3 := url.Values{}
+		for k, v := range f {
+			f3[k] = v
+		}
+		f3.Set("client_id", fmt.Sprintf("https://replaying-client-%d.example/oauth2/y", i))
+		before = puts()
+		r3, _ := node.Do("POST", w.N.Public+"/oauth2/"+w.Verifier.Name+"/token", f3.Encode(), hdr)
+		r.Case("s2s/replayed-presentation-other-client_id", true)
+		r.Count("token_requests", 1)
+		r.Distinct("defects_exercised", "replayed-presentation-other-client_id")
+		if r3.Status == 200 || puts() != before {
+			r.Violation("C02/issued-despite/replayed-presentation-other-client_id", "access token issued for a replayed presentation (nonce seen before) presented under another client_id", map[string]any{"first": r1.String(), "replay": r3.String()})
 		}
 	}
 
